@@ -1,1 +1,2 @@
 //! Facade for `service.rs`.
+pub use crate::handler::{HandlerIn, HandlerOut};
